@@ -229,6 +229,9 @@ inline void run(hz::Reader &r, unsigned oracle) {
                 th.emplace_back([&ctx, i] { contender_thread(ctx, (int)i); });
         }
         for (auto &t : th) t.join();
+        // a detached thread created by parallel_resume() may still be in the tail of an await_suspend whose coroutine has
+        // long continued elsewhere: let every thread finish before the records are read
+        vrt::finish_main();
 
         // ---- end-of-case oracle ----
         std::vector<const Req *> all;
